@@ -28,7 +28,7 @@ theorem mem_tracksOf {s : Members.State} {c t : Int} : t ∈ Members.tracksOf s 
     rw [← this]; exact hp
   · intro h; exact ⟨(c, t), ⟨h, rfl⟩, rfl⟩
 
-theorem mem_pairs_iff {d : Db} {c t : Int} : (c, t) ∈ (absM d).pairs ↔ ∃ r ∈ d.pe, r.key = c ∧ r.val = t := by
+theorem mem_pairs_iff {d : Db} {c t : Int} : (c, t) ∈ (absM d).pairs ↔ ∃ r ∈ d.pe, r.key = c ∧ r.val.track = t := by
   rw [absM_pairs]
   simp only [List.mem_map, pairOf, Prod.mk.injEq]
   constructor
@@ -42,7 +42,7 @@ theorem mem_pairs_iff {d : Db} {c t : Int} : (c, t) ∈ (absM d).pairs ↔ ∃ r
 theorem qTracks_spec {S : Ord} {d : Db} (hC : ChInv S d) (hM : MemInv d) (c : Int) :
     ∃ l, qTracks d c = .ok l ∧ l.Nodup ∧ (∀ t, t ∈ l ↔ t ∈ Members.tracksOf (absM d) c) ∧ ∀ t ∈ l, t ∈ qAllTracks d := by
   obtain ⟨rows, hw, hm, hr⟩ := walkBack_spec hC.re c
-  have hmemiff : ∀ t, t ∈ rows.map (·.val) ↔ (c, t) ∈ (absM d).pairs := by
+  have hmemiff : ∀ t, t ∈ rows.map (·.val.track) ↔ (c, t) ∈ (absM d).pairs := by
     intro t
     rw [mem_pairs_iff]
     constructor
@@ -56,8 +56,8 @@ theorem qTracks_spec {S : Ord} {d : Db} (hC : ChInv S d) (hM : MemInv d) (c : In
       have := eq_of_id_eq hC.re.ids_nodup (hr r' hr').1 hrt e
       rw [← hv, ← this]
       exact List.mem_map.mpr ⟨r', hr', rfl⟩
-  refine ⟨rows.map (·.val), by simp [qTracks, hw, Res.bind], ?_, ?_, ?_⟩
-  · apply nodup_map_of_inj_on (l := rows) (fun r : Row Int => r.id) (fun r : Row Int => r.val) (hm ▸ hC.re.nodup c)
+  refine ⟨rows.map (·.val.track), by simp [qTracks, hw, Res.bind], ?_, ?_, ?_⟩
+  · apply nodup_map_of_inj_on (l := rows) (fun r : Row Ent => r.id) (fun r : Row Ent => r.val.track) (hm ▸ hC.re.nodup c)
     intro x hx y hy e
     have := hM.pairs.pair_unique (core x) (mem_cores.mpr ⟨x, (hr x hx).1, rfl⟩) (core y) (mem_cores.mpr ⟨y, (hr y hy).1, rfl⟩)
       (by simp [core, (hr x hx).2, (hr y hy).2]) (by simp [core, e])
